@@ -73,7 +73,7 @@ PROCS = {
     'rename_fields': lambda sel: S('rename_fields', {'s': 't'}, **_k(sel)),
     # structural ones: custom expectation
     'delete_resource': lambda sel: {'op': 'delete_resource', 'a': [sel]},
-    'concatenate': lambda sel: S('concatenate', {'id': [], 's': []}, {'name': 'concat'}, **_k(sel)),
+    'concatenate': lambda sel: S('concatenate', {'ident': ['id'], 's': []}, {'name': 'concat'}, **_k(sel)),
     'load': None,
 }
 core.FUNCS['drop'] = core.dataflows.base.schema_validator.drop
@@ -263,7 +263,7 @@ def check_one(proc, selkind, sel, names):
             return V('selection', 'resources after = %r, specified = %r' % (gnames, exp_names)), 'wrong', True
         exp_rows = []
         for n in want:
-            exp_rows.extend({'id': r['id'], 's': r['s']} for r in res_rows(n))
+            exp_rows.extend({'ident': r['id'], 's': r['s']} for r in res_rows(n))
         if gobs['concat']['rows'] != enc_rows(exp_rows):
             return V('selected', 'concatenated rows differ from the selected resources\' rows'), 'wrong', True
         for n in exp_names:
@@ -443,6 +443,64 @@ def check_chain(case):
     return out
 
 
+# ---- consumers that ask for several resources before reading their rows ------------------------------------------
+@core.builder('c10_eager')
+def _b_eager(step, env):
+    def eager(package):
+        yield package.pkg
+        res = list(package)          # every resource is requested before any row is read
+        for r in (reversed(res) if step.get('reverse') else res):
+            pass
+        # hand them on in the original order, but read by the consumer only now
+        for r in res:
+            yield r
+    return eager
+
+
+EAGER_PROCS = ['validate', 'deduplicate', 'set_type', 'sort_rows', 'filter_rows', 'unpivot', 'update_resource', 'update_schema',
+               'set_primary_key', 'add_computed_field', 'find_replace', 'add_field', 'delete_fields', 'select_fields',
+               'rename_fields', 'printer']
+EAGER_SELECTORS = [('none', None), ('name', 'a'), ('name', 'ab'), ('list2', ['a', 'ab']), ('int', 0), ('int', -1), ('regex-star', 'a.+')]
+
+
+def check_eager(proc):
+    """The selection is decided per resource when the resource is handed on, not when its rows happen to be read: a
+    downstream step that collects all resources first must see exactly what a sequential consumer sees."""
+    names = ['a', 'ab', 'a.b']
+    out = {'n': 0, 'keys': [], 'outcomes': {}, 'viol': [], 'states': 0, 'transitions': 0, 'traces': 0,
+           'sample': {'processor': proc, 'package': names, 'consumer': 'list(package) before reading rows'}}
+    for selkind, sel in EAGER_SELECTORS:
+        res = []
+        for tail in ([], [{'op': 'c10_eager'}]):
+            with core.scratch_dir() as d:
+                env = Env(d)
+                kind, st = run_steps([{'op': 'from_state', 'state': package(names), 'sequential': False}, PROCS[proc](sel)] + tail, env)
+                res.append((kind, observe(st, env.log) if kind == 'ok' else st))
+        out['n'] += 1
+        out['traces'] += 2
+        out['transitions'] += 2
+        (k1, seq), (k2, eag) = res
+        if k1 != 'ok':
+            out['outcomes']['eager:rejected'] = out['outcomes'].get('eager:rejected', 0) + 1
+            continue
+        out['keys'].append(core.h(['eager', proc, sel]))
+        out['states'] += 1
+        witness = {'eager': proc, 'selkind': selkind, 'sel': sel}
+        label = '%s(resources=%r) on package %r followed by a step that requests every resource before reading rows' % (proc, sel, names)
+        if k2 != 'ok':
+            out['viol'].append(('eager-raises/%s' % proc, '%s: raises %s: %s' % (label, core.exc_sig(eag), str(eag)[:100]), witness))
+            out['outcomes']['eager:raises'] = out['outcomes'].get('eager:raises', 0) + 1
+            continue
+        bad = [n for n in names if n not in eag[1] or eag[1][n]['rows'] != seq[1][n]['rows'] or eag[1][n]['desc'] != seq[1][n]['desc']]
+        if eag[0] != seq[0] or bad:
+            out['viol'].append(('eager-differs/%s/%s' % (proc, selkind), '%s: resource(s) %r differ from what a sequential consumer gets'
+                                % (label, bad or eag[0]), witness))
+            out['outcomes']['eager:differs'] = out['outcomes'].get('eager:differs', 0) + 1
+        else:
+            out['outcomes']['eager:ok'] = out['outcomes'].get('eager:ok', 0) + 1
+    return out
+
+
 def run(run):
     run.rule = ('full product processor(%d) x selector form(%d) x package(names over {a,ab,a.b,aXb}); a case is '
                 'non-trivial when the specified selection is non-empty; distinct by (processor, selector, package)'
@@ -458,6 +516,8 @@ def run(run):
     reuse_cases = [(p, k, sel) for p in REUSE_PROCS for k, sel in SELECTORS if k in ('none', 'name', 'regex-star', 'list2', 'int')]
     for res in run.map(check_reuse, reuse_cases, chunksize=4):
         run.absorb(res)
+    for res in run.map(check_eager, EAGER_PROCS, chunksize=1):
+        run.absorb(res)
     chain_cases = [(sp, p) for sp in SPREADS for p in CHAIN_PROCS]
     for res in run.map(check_chain, chain_cases, chunksize=2):
         run.absorb(res)
@@ -467,6 +527,8 @@ def run(run):
 
 
 def replay(w):
+    if 'eager' in w:
+        return check_eager(w['eager'])['viol']
     if 'chain' in w:
         return [v for v in check_chain(tuple(w['chain']))['viol']]
     if 'reuse' in w:
